@@ -162,7 +162,7 @@ fn recv_us(t: u8) -> u64 {
 }
 /// the message (bucket b, sub-source s, position p, reception t) as a struct
 fn gen_msg(b: usize, s: usize, p: usize, t: u8) -> DltMessage {
-    let ecu = [b'S', b'R', b'0' + b as u8, b'0' + s as u8];
+    let ecu = [b'S', b'R', b'0'.wrapping_add(b as u8), b'0'.wrapping_add(s as u8)];
     mk_msg(
         own_index(b, s, p),
         &ecu,
@@ -170,12 +170,12 @@ fn gen_msg(b: usize, s: usize, p: usize, t: u8) -> DltMessage {
         (p as u32 + 1) * 10,
         true,
         Some((MTIN_LOG_INFO_V, 0, *b"APID", *b"CTID")),
-        vec![b as u8, s as u8, p as u8],
+        vec![b as u8, (b >> 8) as u8, s as u8, p as u8],
     )
 }
 /// the same message as bytes (storage framing) for the reader-backed sources
 fn gen_bytes(b: usize, s: usize, p: usize, t: u8) -> Vec<u8> {
-    let ecu = [b'S', b'R', b'0' + b as u8, b'0' + s as u8];
+    let ecu = [b'S', b'R', b'0'.wrapping_add(b as u8), b'0'.wrapping_add(s as u8)];
     MsgSpec {
         framing: Framing::Storage,
         htyp: VERS1 | UEH | WEID | WTMS,
@@ -190,7 +190,7 @@ fn gen_bytes(b: usize, s: usize, p: usize, t: u8) -> Vec<u8> {
         micros: 0,
         verb_mstp_mtin: MTIN_LOG_INFO_V,
         noar: 0,
-        payload: vec![b as u8, s as u8, p as u8],
+        payload: vec![b as u8, (b >> 8) as u8, s as u8, p as u8],
     }
     .to_bytes()
 }
@@ -700,6 +700,7 @@ impl Prop for C09 {
                 "subprocess_chain_ran",
                 "time_corners",
                 "inexact_source_hint",
+                "many_sources",
             ],
         }
     }
@@ -789,6 +790,46 @@ impl Prop for C09 {
                 if !done {
                     return;
                 }
+            }
+        }
+        // (2c) many sources (counts around the capacity of small integer types): one message in every source, or only in
+        // the last / the first and the last source
+        {
+            let ks: &[usize] = if quick { &[255, 256, 257, 300] } else { &[127, 128, 129, 255, 256, 257, 300, 1000, 65_537] };
+            ctx.begin_family("many_sources", &format!("k in {:?} sources x {{every source one message, only the last, first and last}} x times {{all equal, increasing}} x starts=2 x apis={}", ks, all.len()));
+            let mut done = true;
+            'm: for k in ks {
+                for fill in 0..3u8 {
+                    for inc in [false, true] {
+                        for st in &starts[..2] {
+                            for api in &all {
+                                if ctx.mine() {
+                                    let buckets: Vec<Vec<Vec<u8>>> = (0..*k)
+                                        .map(|b| {
+                                            let has = match fill {
+                                                0 => true,
+                                                1 => b == k - 1,
+                                                _ => b == 0 || b == k - 1,
+                                            };
+                                            vec![if has { vec![if inc { 1 + (b * 150 / k) as u8 } else { 5 }] } else { vec![] }]
+                                        })
+                                        .collect();
+                                    let case = Case { family: "many_sources".into(), api: *api, start: *st, nest: false, reader: false, buckets, hints: vec![] };
+                                    ctx.landmark("many_sources");
+                                    run_case(ctx, &case);
+                                    if ctx.out_of_time() {
+                                        done = false;
+                                        break 'm;
+                                    }
+                                }
+                            }
+                        }
+                    }
+                }
+            }
+            ctx.end_family(done);
+            if !done {
+                return;
             }
         }
         // (3) chain: every placement of empty sources among <= kmax sources
